@@ -1,6 +1,8 @@
 import SaModel.Build.Dec
 import SaModel.Spec.WF
 import SaModel.Lemmas.C03Assemble
+import SaModel.Lemmas.C03WFMain
+import SaModel.Lemmas.C03New
 /-
 C03 — every produced array is a well-formed Arrow array of the declared field.
 
@@ -134,5 +136,193 @@ example : ∃ b a, WFB b ∧ Lemmas.C03.Faithful b ∧ finish {} b = .ok a ∧
   ⟨.list "$.a" false ⟨"element", true, []⟩ (some [true, false]) [0, 2, 2]
       (.leaf "$.a.element" (.int .i32) (some [true, false]) [1, 0]), _,
     by simp [WFB, VLen, OffsOK, dec, maskNull], by simp [Lemmas.C03.Faithful], rfl, by decide⟩
+
+/-! ### every slot of the finished array, hidden ones included -/
+
+/-- **`finish_decodeP`.**  `decP b` is `dec b` with dictionary keys read through the values of the *finished*
+dictionary (placeholder included).  Under `Sound` (weaker than `Faithful`: dummy keys allowed as long as the
+finished dictionary has a value for them) every slot of the finished array decodes, to `decP`. -/
+theorem finish_decodeP (ext : Ext) (b : B) (a : Arr) (hw : WFB b) (hs : Lemmas.C03.Sound b)
+    (h : finish ext b = .ok a) : decodeAll a = (Lemmas.C03.decP b).map .ok :=
+  Lemmas.C03.finish_decodeP ext b a hw hs h
+
+theorem decP_length (b : B) : (Lemmas.C03.decP b).length = (dec b).length := Lemmas.C03.decP_length b
+
+theorem decP_eq_dec (b : B) (hw : WFB b) (hf : Lemmas.C03.Faithful b) : Lemmas.C03.decP b = dec b :=
+  Lemmas.C03.decP_eq_dec b hw hf
+
+theorem Faithful_Sound (b : B) (hw : WFB b) (hf : Lemmas.C03.Faithful b) : Lemmas.C03.Sound b :=
+  Lemmas.C03.Faithful_Sound b hw hf
+
+/-- non-vacuity of `Sound` beyond `Faithful`: the dummy-key dictionary of `finish_decode_dictionary_dummy_false`
+is `Sound`, and its finished array reads the placeholder `""` -/
+example : Lemmas.C03.Sound (.dictionary "$.a" (.leaf "$.a.key" (.int .u32) none [0]) (.bytes "$.a.value" .utf8 none [0] []) []) ∧
+    Lemmas.C03.decP (.dictionary "$.a" (.leaf "$.a.key" (.int .u32) none [0]) (.bytes "$.a.value" .utf8 none [0] []) []) =
+      [.str []] := by
+  refine ⟨?_, by decide⟩
+  simp only [Lemmas.C03.Sound, true_and]
+  intro k hk
+  have : k = .int 0 := by simpa [Lemmas.C03.decP, maskNull, leafVal] using hk
+  exact Or.inr ⟨0, this, by decide⟩
+
+/-! ### well-formedness of the finished array -/
+
+/-- bitmap of a finished array: present iff nullable, bit offset 0, exactly ⌈len/8⌉ bytes, padding bits clear -/
+theorem validityOk_finish (v : Validity) (nl : Bool) (n : Nat) (hn : v.isSome = nl) (hv : VLen v n) :
+    validityOk nl (finishValidity v) n = true :=
+  Lemmas.C03.validityOk_finish v nl n hn hv
+
+/-- **`finish_wf`.**  The array a builder finishes into is a well-formed array (`Spec.wf`: type equality including
+child names / nullability / metadata, bitmaps, offsets, child lengths, ids and keys in range, UTF-8) of the data type
+the builder was created for.  Hypotheses: `BuiltFor` (shape; `newDT_builtFor`), the state invariant `WFB`,
+`Sound` (known finding FixedSizeBinary(0); dictionary keys designate a value) and `WFX` (what `WFB` does not carry:
+values in physical range, offsets ≤ i32/i64 max, string data valid UTF-8). -/
+theorem finish_wf (ext : Ext) (b : B) (dt : DataType) (nl : Bool) (a : Arr)
+    (hb : Lemmas.C03.BuiltFor dt nl b) (hw : WFB b) (hs : Lemmas.C03.Sound b) (hx : Lemmas.C03.WFX b)
+    (h : finish ext b = .ok a) : wf dt nl a = true :=
+  Lemmas.C03.finish_wf ext b dt nl a hb hw hs hx h
+
+/-- the builder created for a field stands for it (every Map type with exactly two entry children) -/
+theorem newB_builtFor (path : String) (f : Field) (b : B) (hm : Lemmas.C03.Map2F f) (h : newB path f = .ok b) :
+    Lemmas.C03.BuiltFor f.dataType f.nullable b :=
+  Lemmas.C03.newB_builtFor path f b hm h
+
+theorem newRoot_builtFor (fields : List Field) (root : B) (hm : ∀ f ∈ fields, Lemmas.C03.Map2F f)
+    (h : newRoot fields = .ok root) : Lemmas.C03.BuiltFor (.struct (Fields.ofList fields)) false root :=
+  Lemmas.C03.newRoot_builtFor fields root hm h
+
+/-- **finding (Map with more than two entry children).**  `build_builder` only looks at the first two children of
+a Map's entries struct; the field is accepted and the produced array's type is not the declared one. -/
+theorem map_three_children_not_wf :
+    ∃ (f : Field) (b : B) (a : Arr), newB "$.m" f = .ok b ∧ finish {} b = .ok a ∧ WF f a = false :=
+  ⟨.mk "m" (.map (.mk "entries" (.struct (.cons (.mk "key" .int32 false []) (.cons (.mk "value" .int32 false [])
+      (.cons (.mk "extra" .int32 false []) .nil)))) false []) false) false [], _, _, rfl, rfl, by decide⟩
+
+/-- **known finding (FixedSizeBinary(0))**, well-formedness side: a nullable `FixedSizeBinary(0)` column with one
+row finishes into an array whose length (0) does not cover its bitmap (1 byte) -/
+theorem fixedSizeBinary0_not_wf :
+    ∃ (b : B) (a : Arr), WFB b ∧ Lemmas.C03.BuiltFor (.fixedSizeBinary 0) true b ∧ finish {} b = .ok a ∧
+      wf (.fixedSizeBinary 0) true a = false := by
+  refine ⟨.fixedSizeBinary "$.a" 0 1 (some [true]) [] 0, .fixedSizeBinary 0 (some ⟨[1], 0⟩) [], ?_, ?_, ?_, by decide⟩
+  · simp [WFB, VLen]
+  · simp [Lemmas.C03.BuiltFor]
+  · simp [finish, finishValidity, packBits, packByte, List.zipIdx]
+
+/-! ### C03 for `to_marrow` -/
+
+theorem toMarrow_split (ext : Ext) (fields : List Field) (rows : List SVal) (arrs : List Arr)
+    (h : toMarrow ext fields rows = .ok arrs) :
+    ∃ root, runRows ext fields rows = .ok root ∧ ∃ rest, buildArrays ext root = .ok (arrs, rest) := by
+  simp only [toMarrow, runRows, bind, Except.bind] at h ⊢
+  cases hr : newRoot fields with
+  | error e => rw [hr] at h; cases h
+  | ok r0 =>
+    rw [hr] at h
+    dsimp only at h ⊢
+    cases hf : List.foldlM (push ext) r0 rows with
+    | error e => rw [hf] at h; cases h
+    | ok root =>
+      rw [hf] at h
+      dsimp only at h
+      refine ⟨root, rfl, ?_⟩
+      cases hb : buildArrays ext root with
+      | error e => rw [hb] at h; cases h
+      | ok p =>
+        rw [hb] at h
+        obtain ⟨as, rest⟩ := p
+        cases h
+        exact ⟨rest, rfl⟩
+
+/-- **C03 (partial: modulo the refinement interface).**  Every array `to_marrow` returns is a well-formed array of
+its field, there is one array per field, and all arrays have the same number of rows.
+
+What is proved here: the whole physical layer (`finish_wf`, `newRoot_builtFor`).  What is taken as hypotheses about
+the state `root` the builder is in after all rows have been pushed — each to be discharged by one `exact` once the
+operational refinement (agent-refine: `push b x = ok b' → WFB b → WFB b' ∧ …`) is merged:
+  * `hwfb`   the state invariant `WFB root`                                   (Build/Inv.lean, push-preserved)
+  * `hshape` `BuiltFor (struct fields) false root`: pushes do not change a builder's shape
+             (true of the fresh root by `newRoot_builtFor`)
+  * `hsound` `Sound root`: no `FixedSizeBinary(0)` with rows (known finding); every dictionary key designates a
+             value of the finished dictionary
+  * `hwfx`   `WFX root`: stored values within their physical range, offsets ≤ i32/i64 max (`increment_last`
+             checks), pushed strings valid UTF-8 (Rust `&str`) -/
+theorem C03_wf_partial (ext : Ext) (fields : List Field) (rows : List SVal) (arrs : List Arr)
+    (hwfb : ∀ root, runRows ext fields rows = .ok root → WFB root)
+    (hshape : ∀ root, runRows ext fields rows = .ok root →
+      Lemmas.C03.BuiltFor (.struct (Fields.ofList fields)) false root)
+    (hsound : ∀ root, runRows ext fields rows = .ok root → Lemmas.C03.Sound root)
+    (hwfx : ∀ root, runRows ext fields rows = .ok root → Lemmas.C03.WFX root)
+    (h : toMarrow ext fields rows = .ok arrs) :
+    arrs.length = fields.length ∧
+    ∃ n : Nat, ∀ (j : Nat) (f : Field) (a : Arr), fields[j]? = some f → arrs[j]? = some a →
+      WF f a = true ∧ (decodeAll a).length = n := by
+  obtain ⟨root, hrun, rest, hba⟩ := toMarrow_split ext fields rows arrs h
+  have hw := hwfb root hrun
+  have hb := hshape root hrun
+  have hs := hsound root hrun
+  have hx := hwfx root hrun
+  cases root with
+  | struct p len v fs cached next seen =>
+    simp only [buildArrays, bind, Except.bind] at hba
+    cases hf : finishFields ext fs with
+    | error e => rw [hf] at hba; cases hba
+    | ok afs =>
+      rw [hf] at hba
+      simp only [pure, Except.pure, Except.ok.injEq, Prod.mk.injEq] at hba
+      obtain ⟨rfl, _⟩ := hba
+      simp only [Lemmas.C03.BuiltFor] at hb
+      obtain ⟨fields', hfe, _, hbl⟩ := hb
+      simp only [DataType.struct.injEq] at hfe
+      subst hfe
+      have hwf := Lemmas.C03.finishFields_wf ext fs _ len afs hbl (Lemmas.C03.WFB_struct hw).2
+        (Lemmas.C03.Sound_struct hs) (Lemmas.C03.WFX_struct hx) hf
+      obtain ⟨hlen, hget⟩ := Lemmas.C03.wfFields_get _ afs len hwf
+      rw [Fields.toList_ofList] at hlen
+      refine ⟨by simp [hlen], len, ?_⟩
+      intro j f a hfj haj
+      rw [List.getElem?_map] at haj
+      cases hma : afs.toList[j]? with
+      | none => rw [hma] at haj; cases haj
+      | some ma =>
+        rw [hma] at haj
+        simp only [Option.map_some, Option.some.injEq] at haj
+        subst haj
+        have := hget j f ma (by rw [Fields.toList_ofList]; exact hfj) hma
+        exact ⟨this.2.2, this.2.1⟩
+  | _ => simp [buildArrays, panic] at hba
+
+theorem ArrFields_toList_decode : ∀ (x : ArrFields),
+    x.toList.map (fun ma => decodeAll ma.2) = (decodeFields x).map (·.2)
+  | .nil => rfl
+  | .cons m a r => by simp [ArrFields.toList, decodeFields, ArrFields_toList_decode r]
+
+/-- the physical half of C01 for `to_marrow`: the returned arrays decode to exactly the columns the final builder
+state holds (`decRoot`).  Same interface hypotheses; `Faithful` instead of `Sound` (no dummy dictionary keys). -/
+theorem toMarrow_decode_partial (ext : Ext) (fields : List Field) (rows : List SVal) (arrs : List Arr)
+    (hwfb : ∀ root, runRows ext fields rows = .ok root → WFB root)
+    (hfaith : ∀ root, runRows ext fields rows = .ok root → Lemmas.C03.Faithful root)
+    (h : toMarrow ext fields rows = .ok arrs) :
+    ∃ root, runRows ext fields rows = .ok root ∧ arrs.map decodeAll = (decRoot root).map (·.map .ok) := by
+  obtain ⟨root, hrun, rest, hba⟩ := toMarrow_split ext fields rows arrs h
+  refine ⟨root, hrun, ?_⟩
+  have hw := hwfb root hrun
+  have hf := hfaith root hrun
+  cases root with
+  | struct p len v fs cached next seen =>
+    simp only [buildArrays, bind, Except.bind] at hba
+    cases hfin : finishFields ext fs with
+    | error e => rw [hfin] at hba; cases hba
+    | ok afs =>
+      rw [hfin] at hba
+      simp only [pure, Except.pure, Except.ok.injEq, Prod.mk.injEq] at hba
+      obtain ⟨rfl, _⟩ := hba
+      have hd := Lemmas.C03.finishFields_decode ext fs afs
+        (Lemmas.C03.WFL_WFBs fs len (Lemmas.C03.WFB_struct hw).2) (Lemmas.C03.Faithful_struct hf) hfin
+      simp only [decRoot, List.map_map]
+      have := ArrFields_toList_decode afs
+      have e : (decodeAll ∘ fun (x : FieldMeta × Arr) => x.snd) = fun ma => decodeAll ma.snd := rfl
+      rw [e, this, hd, List.map_map]
+      rfl
+  | _ => simp [buildArrays, panic] at hba
 
 end SaModel.Props.C03
